@@ -366,7 +366,7 @@ func TestVfPktRunner(t *testing.T) {
 	// C16: exit delay honoured; replies inside the delay are reported; send phases shorter and longer than the delay
 	for k := 0; k < ndelay; k++ {
 		c := vfPktCfg{N: 1 + rnd.Intn(40), W: []int{1, 2, 8}[rnd.Intn(3)], Procs: []int{2, 4, 16}[rnd.Intn(3)]}
-		c.ExitDelay = []time.Duration{300, 450, 120, 700}[k%4] * time.Millisecond
+		c.ExitDelay = []time.Duration{600, 450, 120, 900}[k%4] * time.Millisecond
 		c.WriteUS = []int{0, 200, 12000}[k%3] // k%3==2: the send phase outlasts the delay
 		if k%3 == 2 {
 			c.N = 20 + rnd.Intn(30)
